@@ -352,7 +352,23 @@ def step (st : St) (line : String) : St × List String :=
           if (op = "msg" || op = "inj") && (outsOf iOut).any (·.startsWith "O:") && !(outsOf iOut).any (·.startsWith "L:") then
             [s!"spec {id} own-observation-not-looped-back {op}: the node broadcast its signed observation but did not feed it back into its own aggregation"]
           else []
-        let govErr : List String := digErr ++ loopErr ++ match ev with
+        -- C02: a chain message observed while a guardian set is known, not from the governance emitter, and not already settled (a
+        -- quorum VAA for its id stored with a timestamp more than the settlement time older than the message's) is signed and broadcast
+        let signErr : List String := match ev with
+          | .message m _ =>
+            let body := (vaaOfMsg 0 m).body
+            let shouldSign : Bool := st0.curSet.isSome && !(m.emitter = st.cfg.govEmitter ∧ m.emitterChain = st.cfg.govChain) &&
+              (match st0.prevDb.lookup (showId body.id) with
+               | none => true
+               | some hex =>
+                 match (ofHex hex >>= unmarshal) with
+                 | none => false   -- a stored VAA the decoder rejects (empty payload): the node logs and drops the observation
+                 | some ex => decide (¬ ((m.tsSec * 1000000000 + m.tsNsec) - (ex.body.ts : Int) * 1000000000 > settlementTime)))
+            if shouldSign && !(outsOf iOut).any (·.startsWith "O:") then
+              [s!"spec {id} local-observation-not-signed {op}: a chain message (id {showId body.id}) was observed under a known guardian set, it is not settled, yet the node did not sign and broadcast its observation"]
+            else []
+          | _ => []
+        let govErr : List String := digErr ++ loopErr ++ signErr ++ match ev with
           | .message m _ =>
             if m.emitter = st.cfg.govEmitter ∧ m.emitterChain = st.cfg.govChain ∧ iOut ≠ "-" then
               [s!"spec {id} governance-emitter-signed a chain message naming the governance emitter produced {iOut.take 80}"]
